@@ -296,6 +296,16 @@ static Result run_box(const Case &c) {
         for (int i = 0; i < n; i++) frs.push_back(&s.frags[i]);
         { FragSet fset; fset.build(frs, {}); DecodeOut o = decode(d, fset, s.fraglen, 0);
           if (o.rc != 0 || o.out != data) r.fail("decode of the complete stripe failed or returned wrong data (rc=" + std::to_string(o.rc) + ")"); }
+        if (real && len == lens[2]) {
+            // the documented corner case "destination is among the supplied fragments": every index, complete list
+            std::vector<const std::vector<uint8_t> *> all;
+            for (int i = 0; i < n; i++) all.push_back(&s.frags[i]);
+            for (int dest = 0; dest < n; dest++) {
+                FragSet fset; fset.build(all, {});
+                ReconOut ro = reconstruct(d, fset, s.fraglen, dest);
+                if (ro.rc != 0 || ro.out != s.frags[dest]) { r.fail("reconstruct of supplied fragment " + std::to_string(dest) + " failed or returned other bytes (rc=" + std::to_string(ro.rc) + ")"); break; }
+            }
+        }
         if (real && len == lens[1]) {
             // fragment lists longer than k+m (and longer than 32 entries) are legal: duplicates are allowed
             for (int total : {n + 1, 33, 70}) for (int force = 0; force < 2; force++) {
